@@ -5,7 +5,7 @@ use crate::gen::*;
 use crate::geom::*;
 use crate::prng::Rng;
 use crate::rd::diff_read;
-use crate::refcodec::decode;
+use crate::refcodec::decode_layout;
 use crate::scn::{Scenario, UnitCtl};
 use crate::world::*;
 use crate::wrun::*;
@@ -61,7 +61,7 @@ pub fn produce(w: &WProg) -> Option<ValidFile> {
     let wb = world.borrow();
     let shp = wb.data(SHP).to_vec();
     let shx = wb.data(SHX).to_vec();
-    let dec = decode(&shp).ok()?;
+    let dec = decode_layout(&shp).ok()?;
     let bounds = dec.recs.iter().map(|r| (r.offset, r.offset + 8 + 2 * r.content_words as usize)).collect();
     let expected = run.written.iter().map(|i| run.geoms[*i].normalised_for_read()).collect();
     Some(ValidFile { shp, shx, expected, bounds })
